@@ -32,7 +32,7 @@ SCOPE = ('universal part: every initial state of the bounded parameter family, o
          'answer is a violation (the relation was produced by the real step function, so it is already confirmed)')
 BOUNDS = {
     'quick': dict(empty='4x4..5x5, both flags', crossing='5x5 (1-2 rivers), 7x7 (1-3 rivers), rivers of Wall', rooms='5x5 layouts 1x2, 2x1, 2x2; 5x7 layout 1x2',
-                  keydoor='4x5, 4x6, 5x5', teleport='4x5, 5x5', memory='5x5, 6x5, 5x7 with 2-3 colours', memory_rooms='4x5 1x2, 5x4 2x1 (1 beacon, 2 exits)',
+                  keydoor='4x5, 4x6, 5x5, 7x5', teleport='4x5, 5x5', memory='5x5, 6x5, 5x7 with 2-3 colours', memory_rooms='4x5 1x2, 5x4 2x1 (1 beacon, 2 exits)',
                   dynamic_obstacles='4x4 (<=2 obstacles), 5x5 (1 obstacle); the existential quantifier also ranges over the obstacle draws',
                   search='explicit graphs of at most 20000 states; agent keeps the key once picked (sound for an existence claim)'),
     'thorough': dict(extra='crossing 9x9 (1-2 rivers), rooms 7x7 2x2, keydoor 5x6/6x5, memory_rooms 5x5 2x2, dynamic_obstacles 5x5 with 2 obstacles'),
@@ -231,7 +231,7 @@ def obligations(tier):
             add('crossing', H, W, n=n)
     for (H, W, lay) in [(5, 5, (1, 2)), (5, 5, (2, 1)), (5, 5, (2, 2)), (5, 7, (1, 2))] + ([] if q else [(7, 7, (2, 2))]):
         add('rooms', H, W, layout=lay)
-    for (H, W) in [(4, 6), (4, 5), (5, 5)] + ([] if q else [(5, 6), (6, 5)]):
+    for (H, W) in [(4, 6), (4, 5), (5, 5), (7, 5)] + ([] if q else [(5, 6), (6, 5), (8, 5)]):
         add('keydoor', H, W)
     for (H, W) in [(4, 5), (5, 5)] + ([] if q else [(5, 6)]):
         add('teleport', H, W)
